@@ -572,8 +572,18 @@ func (m *model) apply(s Step, mem []uint, args [][]uint) {
 			}
 		}
 		if s.Unscoped {
+			// the records whose links were removed are deleted - except a record one of the operated
+			// owners points at after the call (the call itself set that link)
+			still := map[uint]bool{}
+			for _, o := range mem {
+				if b := m.boss[r.Name][o]; b != 0 {
+					still[b] = true
+				}
+			}
 			for _, b := range removed {
-				delete(m.rows[r.Name], b)
+				if !still[b] {
+					delete(m.rows[r.Name], b)
+				}
 			}
 		}
 	default: // many to many: Unscoped has no meaning for join rows (documented), targets always survive
